@@ -409,6 +409,10 @@ impl endpoint::Session for ListenerSession {
         self.session.set_session_stop_reason(reason)
     }
 
+    fn abandon_outcome_waiters(&mut self) {
+        self.session.abandon_outcome_waiters()
+    }
+
     fn session_stop_reason(&self) -> &Arc<OnceLock<SessionStopReason>> {
         self.session.session_stop_reason()
     }
